@@ -4,7 +4,7 @@
    stored records stay related by the abstraction.  Spec-level sanity lemmas. *)
 From ZV Require Import Common.Bytes Common.BytesFacts Data.Consts Data.Base Data.BaseFacts Data.MapEq Data.Map Data.MapZ Data.MapL Data.MapK
   Data.Spec Data.SpecZ Data.SpecL Data.SpecK Data.Run Data.RepColl Data.RepHS Data.RepL Data.RepZ Data.RepState
-  Data.RefHS Data.RefCmd Data.RefK Data.RepRead Data.RefL Data.RefZ.
+  Data.RefHS Data.RefCmd Data.RefK Data.RepRead Data.RefL Data.RefZ Data.PreFix Data.C09Proofs.
 From Coq Require Import Lia ZifyBool.
 Open Scope Z_scope.
 
@@ -45,21 +45,38 @@ Section Seq.
   Lemma simS_init : simS 0 m_init s_init.
   Proof. constructor; cbn; [apply RepS_init|constructor|constructor|constructor|constructor|reflexivity|constructor]. Qed.
 
-  (* a push must not use up the 2^61 sequence numbers on its side of the list *)
-  Definition admissible (ms : mstate) (c : cmd) : Prop :=
-    match c with
-    | CL key (LCpush tail vs) => push_in_bounds (alook empty_lcoll key (m_list ms)) tail (Z.of_nat (length vs))
-    | CZ key (ZCremrangebyrank _ _) | QZ key (ZQrange _ _ _ _) | QZ key (ZQrangebyscore _ _ _ _ _ _) | QZ key (ZQrangebylex _ _ _ _ _ _) =>
-        zsize (alook empty_zcoll key (m_zset ms)) <= max_batch_num          (* below the 5000-element bulk limit *)
-    | _ => True
-    end.
+  (* every list stays within B sequence numbers of the initial one; B grows by at most MAX_BATCH_NUM per command *)
+  Definition LBS (B : Z) (ms : mstate) : Prop := all_recs (LB B) (m_list ms).
+
+  Lemma LBS_init : LBS 0 m_init.
+  Proof. intros k v []. Qed.
+
+  Lemma map_step_LB clock ts c B ms : RepS compact clock ms -> LBS B ms -> 0 <= B ->
+    LBS (B + max_batch_num) (fst (map_step compact ts c ms)).
+  Proof.
+    intros Rs A PB.
+    assert (Keep : LBS (B + max_batch_num) ms).
+    { eapply all_recs_mono; [|exact A]. intros v; apply LB_mono. unfold max_batch_num; lia. }
+    destruct c; cbn [map_step]; try exact Keep;
+      try (match goal with |- context [aupd ?d ?k ?f ?m] => destruct (aupd d k f m) end; exact Keep).
+    - pose proof (aupd_recs (fun l => RepL compact clock l /\ LB B l) (LB (B + max_batch_num)) empty_lcoll key
+                            (MapL.lstep compact ts key c) (m_list ms)) as H.
+      destruct (aupd empty_lcoll key (MapL.lstep compact ts key c) (m_list ms)) as [m r]. cbn [fst m_list] in *.
+      apply H.
+      + intros v [_ Hv]. eapply LB_mono; [|exact Hv]. unfold max_batch_num; lia.
+      + split; [apply RepL_empty|apply LB_empty].
+      + intros v [Rv Hv]. apply (lstep_LB compact clock); auto.
+      + intros k v Hin. split; [apply (rs_list _ _ _ Rs k v Hin)|apply (A k v Hin)].
+    - destruct (MapK.kstep ts c (m_kv ms)). exact Keep.
+  Qed.
 
   (* one covered command: equal replies, related successor states *)
-  Theorem step_ref clock ts c ms ss : simS clock ms ss -> 0 <= clock < ts -> admissible ms c ->
+  Theorem step_ref clock ts c bnd ms ss : simS clock ms ss -> 0 <= clock < ts ->
+    LBS bnd ms -> 0 <= bnd -> bnd + max_batch_num < seq_room ->
     snd (map_step compact ts c ms) = snd (spec_step c ss) /\
     simS ts (fst (map_step compact ts c ms)) (fst (spec_step c ss)).
   Proof.
-    intros S L Adm. pose proof (map_step_rep compact clock ts c ms (ss_rep _ _ _ S) L) as Rn.
+    intros S L LBm PB Room. pose proof (map_step_rep compact clock ts c ms (ss_rep _ _ _ S) L) as Rn.
     destruct S as [Rs Sh Sst Sz Sl Skv Snd].
     pose proof (rs_hash _ _ _ Rs) as RH. pose proof (rs_set _ _ _ Rs) as RSt.
     assert (LH : forall key, RepC compact clock (alook empty_coll key (m_hash ms)) /\
@@ -163,7 +180,16 @@ Section Seq.
       assert (W : snd (MapL.lstep compact ts key c (alook empty_lcoll key (m_list ms))) = snd (SpecL.lstep key c (alook [] key (s_list ss))) /\
                   abs_l (fst (MapL.lstep compact ts key c (alook empty_lcoll key (m_list ms)))) = fst (SpecL.lstep key c (alook [] key (s_list ss)))).
       { rewrite <- AB. destruct c.
-        - apply (lpush_ref compact clock); auto.
+        - apply (lpush_ref compact clock); auto. intros TM.
+          destruct vs as [|x0 r0].
+          + unfold push_in_bounds, push_last, seq_room in *. cbn [length]. change (Z.of_nat 0) with 0.
+            pose proof (alook_rec (LB bnd) empty_lcoll key (m_list ms) (LB_empty bnd) LBm) as HB.
+            unfold l_size, l_head, l_tail. destruct (l_meta (alook empty_lcoll key (m_list ms))) as [m0|] eqn:E0.
+            * destruct (HB m0 E0) as [a1 a2]. destruct (rl_meta _ _ _ RL m0 E0) as (hle & _).
+              assert (0 <? lm_tail m0 - lm_head m0 + 1 = true) as -> by lia. unfold max_batch_num in *. destruct tail; cbv iota; lia.
+            * change (0 <? 0) with false. cbv iota. unfold max_batch_num in *. destruct tail; cbv iota; lia.
+          + apply (LB_push_in_bounds compact clock bnd); auto; [|discriminate].
+            apply alook_rec; [apply LB_empty|exact LBm].
         - apply (lpop_ref compact clock); auto.
         - apply (lset_ref compact clock); auto.
         - apply (ltrim_ref compact clock); auto.
@@ -203,30 +229,59 @@ Section Seq.
     | (_, c) :: r => let '(s', rp) := spec_step c s in rp :: spec_trace r s'
     end.
 
-  (* admissibility of every command in the state it is applied to *)
-  Fixpoint adm_run (cs : list (Z * cmd)) (ms : mstate) : Prop :=
-    match cs with
-    | [] => True
-    | (ts, c) :: r => admissible ms c /\ adm_run r (fst (map_step compact ts c ms))
-    end.
-
-  Theorem trace_ref cs : forall clock ms ss, simS clock ms ss -> 0 <= clock -> increasing clock cs ->
-    adm_run cs ms ->
+  Theorem trace_ref cs : forall clock B ms ss, simS clock ms ss -> 0 <= clock -> increasing clock cs ->
+    LBS B ms -> 0 <= B -> B + Z.of_nat (length cs) * max_batch_num < seq_room ->
     map_trace cs ms = spec_trace cs ss /\ simS (last_ts clock cs) (map_run compact cs ms) (spec_run cs ss).
   Proof.
-    induction cs as [|[ts c] r IH]; intros clock ms ss S L I Ad; cbn [map_trace spec_trace map_run spec_run fold_left last_ts].
+    induction cs as [|[ts c] r IH]; intros clock B ms ss S L I LBm PB Room; cbn [map_trace spec_trace map_run spec_run fold_left last_ts].
     - split; [reflexivity|exact S].
-    - destruct I as [I1 I2].
-      cbn [adm_run] in Ad. destruct Ad as [A1 A2].
-      destruct (step_ref clock ts c ms ss S ltac:(lia) A1) as [E1 S1]. cbn [fst snd].
+    - destruct I as [I1 I2]. cbn [length] in Room.
+      assert (MB : 0 < max_batch_num) by (unfold max_batch_num; lia).
+      destruct (step_ref clock ts c B ms ss S ltac:(lia) LBm PB ltac:(nia)) as [E1 S1]. cbn [fst snd].
+      pose proof (map_step_LB clock ts c B ms (ss_rep _ _ _ S) LBm PB) as LB1.
       destruct (map_step compact ts c ms) as [ms' r1]. destruct (spec_step c ss) as [ss' r2]. cbn [fst snd] in *.
-      destruct (IH ts ms' ss' S1 ltac:(lia) I2 A2) as [E2 S2]. split; [rewrite E1, E2; reflexivity|exact S2].
+      destruct (IH ts (B + max_batch_num) ms' ss' S1 ltac:(lia) I2 LB1 ltac:(lia) ltac:(nia)) as [E2 S2].
+      split; [rewrite E1, E2; reflexivity|exact S2].
   Qed.
 End Seq.
 
-Theorem all_sequences_ref compact cs : increasing 0 cs -> adm_run compact cs m_init ->
+(* sequences of fewer than seq_room / MAX_BATCH_NUM (about 4.6e14) commands *)
+Definition short_enough (cs : list (Z * cmd)) : Prop := Z.of_nat (length cs) * max_batch_num < seq_room.
+
+Theorem all_sequences_ref compact cs : increasing 0 cs -> short_enough cs ->
   map_trace compact cs m_init = spec_trace cs s_init.
-Proof. intros I Ad. apply (trace_ref compact cs 0 m_init s_init); [apply simS_init|lia|exact I|exact Ad]. Qed.
+Proof.
+  intros I Sh. apply (trace_ref compact cs 0 0 m_init s_init); [apply simS_init|lia|exact I|apply LBS_init|lia|exact Sh].
+Qed.
+
+(* ---------- where the timestamps matter ----------
+   Without expiry commands the raft timestamp reaches the data only as the generation (ValueVersion) that
+   wait_compact gives a collection created while no meta key exists (prepareCollKeyForWrite / renewOnExpired).
+   Under local_deletion the Map model does not look at it at all: *)
+Lemma renum_map_trace cs : forall n s, map_trace false (renum n cs) s = map_trace false cs s.
+Proof.
+  induction cs as [|[t c] r IH]; intros n s; cbn [renum map_trace]; [reflexivity|].
+  rewrite (map_step_local_ts n t c s). destruct (map_step false t c s). rewrite IH. reflexivity.
+Qed.
+Lemma renum_spec_trace cs : forall n s, spec_trace (renum n cs) s = spec_trace cs s.
+Proof.
+  induction cs as [|[t c] r IH]; intros n s; cbn [renum spec_trace]; [reflexivity|].
+  destruct (spec_step c s). rewrite IH. reflexivity.
+Qed.
+(* local_deletion: arbitrary timestamps *)
+Theorem local_all_sequences_ref cs : short_enough cs -> map_trace false cs m_init = spec_trace cs s_init.
+Proof.
+  intros Sh. rewrite <- (renum_map_trace cs 1), <- (renum_spec_trace cs 1).
+  apply all_sequences_ref; [apply (renum_increasing cs 1)|]. unfold short_enough. rewrite renum_length. exact Sh.
+Qed.
+
+(* under wait_compact EQUAL timestamps break it: a collection cleared and re-created at the timestamp of its
+   creation reuses its generation, and the cleared member is enumerated again (open finding of C10:
+   "wait_compact renewOnExpired version=ts collision") *)
+Definition equal_ts_cs : list (Z * cmd) :=
+  [ (5, CSadd k_ts [b_a]); (5, CSclear k_ts); (5, CSadd k_ts [b_b]); (5, QSmembers k_ts) ].
+Lemma equal_ts_breaks : map_trace true equal_ts_cs m_init <> spec_trace equal_ts_cs s_init.
+Proof. vm_compute. discriminate. Qed.
 
 (* ---------- Spec-level sanity lemmas (guards against a wrong reference model) ---------- *)
 (* SADD counts a repeated member once *)
